@@ -11,6 +11,7 @@ import (
 	"strings"
 
 	"golang.org/x/tools/go/ssa"
+	"golang.org/x/tools/go/ssa/ssautil"
 )
 
 // ---- type-set data-flow for one interface value ------------------------------------------------
@@ -211,6 +212,9 @@ func uncheckedAsserts(fn *ssa.Function) []panicSite {
 				return
 			}
 		}
+		if typedContainerLoad(fn, ta) {
+			return
+		}
 		out = append(out, panicSite{fn, in, "assert", "unchecked type assertion to " + types.TypeString(ta.AssertedType, func(p *types.Package) string { return p.Name() })})
 	})
 	return out
@@ -394,3 +398,94 @@ func sameUnderlying(a, b ssa.Value) bool {
 }
 
 var _ = token.ADD
+
+// typedContainerLoad: the asserted value comes out of a sync.Map or a sync.Pool that is a package-level variable (or a
+// field), and everything the program puts into that container — every Store / LoadOrStore / Put on the same variable,
+// and the Pool's New — has the asserted type statically.  Then the assertion cannot fail.
+func typedContainerLoad(fn *ssa.Function, ta *ssa.TypeAssert) bool {
+	var container ssa.Value
+	dependsOn(ta.X, func(v ssa.Value) bool {
+		c, ok := v.(*ssa.Call)
+		if !ok || c.Common().StaticCallee() == nil || c.Common().StaticCallee().Pkg == nil || c.Common().StaticCallee().Pkg.Pkg.Path() != "sync" || len(c.Common().Args) == 0 {
+			return false
+		}
+		switch c.Common().StaticCallee().Name() {
+		case "Load", "LoadOrStore", "Get", "LoadAndDelete":
+			container = c.Common().Args[0]
+			return true
+		}
+		return false
+	})
+	g, ok := container.(*ssa.Global)
+	if !ok {
+		return false
+	}
+	want := ta.AssertedType
+	okAll, puts := true, 0
+	check := func(v ssa.Value) {
+		puts++
+		if mi, isMI := v.(*ssa.MakeInterface); isMI && types.Identical(mi.X.Type(), want) {
+			return
+		}
+		okAll = false
+	}
+	for f := range allFunctionsOf(fn.Prog) {
+		if len(f.Blocks) == 0 {
+			continue
+		}
+		allInstrs(f, func(in ssa.Instruction) {
+			switch x := in.(type) {
+			case *ssa.Call:
+				c := x.Common()
+				if c.StaticCallee() == nil || c.StaticCallee().Pkg == nil || c.StaticCallee().Pkg.Pkg.Path() != "sync" || len(c.Args) == 0 || c.Args[0] != ssa.Value(g) {
+					return
+				}
+				switch c.StaticCallee().Name() {
+				case "Store":
+					if len(c.Args) == 3 {
+						check(c.Args[2])
+					}
+				case "LoadOrStore":
+					if len(c.Args) == 3 {
+						check(c.Args[2])
+					}
+				case "Put":
+					if len(c.Args) == 2 {
+						check(c.Args[1])
+					}
+				case "Swap", "CompareAndSwap":
+					okAll = false
+				}
+			case *ssa.Store:
+				// sync.Pool{New: func() interface{} {...}}: the initialiser stores the New function into the variable
+				if fa, isFA := x.Addr.(*ssa.FieldAddr); isFA && fa.X == ssa.Value(g) {
+					if newFn, isFn := x.Val.(*ssa.Function); isFn {
+						allInstrs(newFn, func(y ssa.Instruction) {
+							if ret, isRet := y.(*ssa.Return); isRet && len(ret.Results) == 1 {
+								check(ret.Results[0])
+							}
+						})
+					} else if mc, isMC := x.Val.(*ssa.MakeClosure); isMC {
+						allInstrs(mc.Fn.(*ssa.Function), func(y ssa.Instruction) {
+							if ret, isRet := y.(*ssa.Return); isRet && len(ret.Results) == 1 {
+								check(ret.Results[0])
+							}
+						})
+					}
+				}
+			}
+		})
+	}
+	return okAll && puts > 0
+}
+
+var allFuncsMemo = map[*ssa.Program]map[*ssa.Function]bool{}
+
+func allFunctionsOf(p *ssa.Program) map[*ssa.Function]bool {
+	if m, ok := allFuncsMemo[p]; ok {
+		return m
+	}
+	m := ssautil.AllFunctions(p)
+	allFuncsMemo[p] = m
+	return m
+}
